@@ -76,9 +76,36 @@ def _end(how, out, res):
         time.sleep(10)
 
 
+def _arm_kill(where, nth):
+    """Crash point inside SemLock._cleanup: SIGKILL this process at the nth sem_unlink /
+    tracker unregister performed by the synchronize module."""
+    import importlib
+    syn = importlib.import_module("loky.backend.synchronize")
+    from loky.backend import resource_tracker as rt
+    count = {"n": 0}
+
+    def wrap(fn):
+        def inner(*a, **k):
+            count["n"] += 1
+            if count["n"] == nth:
+                os.kill(os.getpid(), signal.SIGKILL)
+                time.sleep(10)
+            return fn(*a, **k)
+        return inner
+    if where == "unlink":
+        syn.sem_unlink = wrap(syn.sem_unlink)
+    else:
+        rt.unregister = wrap(rt.unregister)
+
+
 def part_sem(args, out):
     """C13: a history of executor/primitive creation, then an ending."""
     from loky.process_executor import ProcessPoolExecutor
+    if args["ending"].startswith("kill_at_"):
+        where, nth = args["ending"][8:].split(":")
+        with open(out, "w") as f:
+            json.dump(dict(pid=os.getpid(), pids=[os.getpid()], armed=True), f)
+        _arm_kill(where, int(nth))
     from loky import get_reusable_executor
     from loky.backend import get_context
     res = dict(pid=os.getpid(), pids=[os.getpid()])
